@@ -37,6 +37,7 @@ def eval_history(arg):
         st_init, _ = project.history(seed, nmods, 0, profile)
         st0 = make_acyclic(st_init)
         ops = history_from(st0, seed, nsteps, profile)
+        ops += directed_tail(st0, ops, seed)
     from mypy.dmypy_server import Server, process_start_options
     import mypy.server.update as U
 
@@ -148,6 +149,39 @@ def eval_history(arg):
     return {"seed": seed, "nmods": nmods, "nsteps": nsteps, "profile": profile, "st0": st0, "ops": ops, "recs": recs}
 
 
+def directed_tail(st0, ops, seed, k=3):
+    """After the random part: definitions that other modules use disappear and come back unchanged, one at a time
+    (uses that mention the definition in a signature only come first - their dependency exists through the type
+    annotation alone). The graph stays acyclic."""
+    import random
+
+    st = copy.deepcopy(st0)
+    for op in ops:
+        project.apply_edit(st, op)
+    used = {}
+    for o, om in st["mods"].items():
+        for u in om["uses"]:
+            d = u["dep"]
+            if d in st["mods"] and d != o and d in om["imports"] and u["name"] in st["mods"][d]["exports"] and not st["mods"][d]["exports"][u["name"]].get("hidden"):
+                e = st["mods"][d]["exports"][u["name"]]
+                sigonly = u.get("sig") is not None and e["kind"] in ("cls", "nt", "dc", "td", "proto", "enum")
+                used[(d, u["name"])] = used.get((d, u["name"]), False) or sigonly
+    rnd = random.Random(seed ^ 0x7A11)
+    pairs = sorted(used, key=lambda p: (not used[p], rnd.random()))[:k]
+    tail = []
+    # the whole annotation-position matrix for one class of another module, in a module that reaches it by
+    # `import dep` (a `from dep import R` line would be a second dependency on R and hide a missing one)
+    cands = sorted((o, d, n) for o, om in st["mods"].items() for d, style in om["imports"].items() if style in ("import", "func") and d in st["mods"] and not om.get("broken") and not om.get("semblock")
+                   for n, e in st["mods"][d]["exports"].items() if e["kind"] in ("cls", "nt", "dc", "td", "proto", "enum") and not e.get("hidden"))
+    if cands:
+        o, d, n = rnd.choice(cands)
+        tail.append({"op": "add_sig_uses", "mod": o, "dep": d, "name": n, "seed": rnd.randrange(2**30)})
+        pairs = [(d, n)] + [p for p in pairs if p != (d, n)][: k - 1]
+    for d, n in pairs:
+        tail += [{"op": "toggle_hidden", "mod": d, "name": n, "seed": 1}, {"op": "toggle_hidden", "mod": d, "name": n, "seed": 2}]
+    return tail
+
+
 def history_from(st0, seed, nsteps, profile):
     """Edit ops drawn against a given initial state (profile restricts the edit kinds)."""
     import random
@@ -226,7 +260,8 @@ def run(run: Run) -> None:
     profile = os.environ.get("VERIF_C03_PROFILE", "structure")  # the env override is a development aid (exploring fenced profiles)
     run.rule = (
         "G2 edit histories in the '%s' profile on import graphs that start acyclic (definition-level edits: change/add/remove functions, classes incl. base-class changes and 'make the local class a subclass of the imported one', constants, aliases, generics, protocols, "
-        "NamedTuple/TypedDict/dataclass/enum, overloads, decorators; body-only errors; remove/restyle imports incl. function-level and TYPE_CHECKING imports; syntax errors and semantic-analysis blockers switched on and removed again; type: ignore on/off) "
+        "NamedTuple/TypedDict/dataclass/enum, overloads, decorators; body-only errors; remove/restyle imports incl. function-level and TYPE_CHECKING imports; syntax errors and semantic-analysis blockers switched on and removed again; type: ignore on/off; a quarter of the uses of class-like definitions mention the class in an annotation only - 20 positions: TypeIs/TypeGuard/Callable/type[]/varargs/tuple/generic argument/TypeVar bound/NamedTuple, TypedDict, dataclass fields/Protocol member/overload item/property/alias/base-class argument/nested def/ClassVar/cast; "
+        "every history ends with a directed tail: all 20 annotation-only positions are added for one class of another module, then up to three definitions used by other modules (that class first) disappear and come back unchanged) "
         "driven through an in-process dmypy Server (cmd_check after every step) and compared with a fresh `python -m mypy` process on the same files: status, per-file ordered diagnostics, multiset. "
         "Non-trivial: a step answered by a fine-grained update that re-processed targets in at least two modules (the edit propagated)." % profile
     )
@@ -240,7 +275,7 @@ def run(run: Run) -> None:
         seeds.append((s, n))
 
     draw()
-    work = [(s, n, 10 if q else 25, profile) for s, n in dict.fromkeys(seeds)]
+    work = [(s, n, 8 if q else 25, profile) for s, n in dict.fromkeys(seeds)]
     k = 0
     for res in pmap(eval_history, work, recycle=2):
         judge(run, res)
